@@ -8,7 +8,13 @@ SPEC = dict(
                "states in which a shrinking resize forks into exactly the outcomes the property allows (one contiguous run gone from "
                "one end, as many as no longer fit, +1 for nni_msgq's documented spare cell); every return code, length, delivered "
                "message and 'would block' observation filters the set and an observation no legal history explains is a violation; "
-               "the guarded ring invariants in lmq.c/msgqueue.c report through nni_verif_fail. Exhaustive over (depth 0..8, every "
+               "the guarded ring invariants in lmq.c/msgqueue.c report through nni_verif_fail. "
+               "A white-box 'stalling' peer protocol (registered with nni_proto_open; it identifies as SUB/BUS/PULL/PAIR/REP but "
+               "receives only one message when asked) puts the per-pipe send queues of PUB and BUS (two pipes, depth set before and "
+               "after the first pipe exists) and the send buffers of PAIR0/PAIR1/PUSH/raw REQ behind a pipe that holds an in-flight "
+               "message under the same fill/resize/drain/refill treatment; SUB contexts with their own RECVBUF are resized "
+               "independently. Depths 31..8192 and the rejected values are driven white-box and through the options. "
+               "Exhaustive over (depth 0..8, every "
                "ring offset, every fill, new depth 0..9, 0..2 gets, 0..2 puts, second new depth 0..9) for both implementations, "
                "sampled beyond. Identifiers: nng_id_map_* against a dictionary (tiny wrapping ranges, 2^32/2^63/2^64 edges, keys "
                "colliding modulo the table size, iteration with removal) plus the guarded structural recount in idhash.c; object "
@@ -19,7 +25,7 @@ SPEC = dict(
                "unchanged tree it holds exactly for pair0, pair1, push (SENDBUF, with and without an idle peer), for the peer's RECVBUF "
                "of pair0/pair1/raw rep, and for raw req's nni_msgq SENDBUF, so no protocol needed the weaker literal bound; lossy "
                "receivers (sub, bus, raw sub) are judged by 'exactly depth messages are retained'. Non-blocking operations are not "
-               "used on nni_msgq-backed raw sockets (they always return EAGAIN there, a C15 finding); fullness is observed with an aio "
+               "used on nni_msgq-backed raw sockets (they always returned EAGAIN there until 55836f4, a C15 finding; the harness keeps the aio form); fullness is observed with an aio "
                "that is cancelled once the library is quiescent (vf_quiesce). 'Not reissued before the range wraps' is judged as: an "
                "allocation that does not increase is legal only if no id above the previous one was free; for object ids (2^31 range) "
                "as: never issued twice within a run. nng_id_map_alloc asserts hi > lo, so the narrowest range tested is two ids. "
@@ -29,6 +35,10 @@ SPEC = dict(
                "rehash under nng_id_visit in nni_id_remove (b907fda), nni_id_alloc cursor overflow at hi == UINT64_MAX (216d2d3). "
                "A random start value (NNG_MAP_RANDOM) cannot be seeded: on ranges up to 300 ids the case first walks the cursor to the "
                "top of the range so that it replays exactly; 1 case in 16 uses the flag unprimed (marked in the case description). "
+               "Object ids: the real 2^31 wrap of the socket/ctx/dialer/listener/pipe maps cannot be reached (the maps are static "
+               "in their .c files; no accessor) - their configuration is judged by range and 'never twice in a run', the wrap logic "
+               "itself through nng_id_map; a second thread opens sockets/contexts during half of the storms. nni_msgq pollables "
+               "are C15's. "
                "A blocked nni_msgq putter is not woken by a growing resize or by a get that makes room (messages stay FIFO in "
                "acceptance order): liveness, left to C06/C15.",
     technique="runtime reference-model monitor (candidate-set queue model, dictionary id model) + ASan/UBSan + invariant hooks",
@@ -38,7 +48,12 @@ SPEC = dict(
          "put while a get waits must complete that get); random histories add flush, blocked getters/putters and depths up to 17. "
          "api mode enumerates (socket kind x depth x ring offset x fill incl. the protocol's in-flight slot x new depth) on 11 "
          "kinds of buffer over inproc, then refills lossy receivers to measure the retained count, measures differential capacity "
-         "at depths 1,2,3,4,5,7,8,16 and runs random send/recv/resize histories. A class is (implementation or socket kind, depth "
+         "at depths 1,2,3,4,5,7,8,16, checks the option range (-1, 8193, below the minimum rejected; 8192/1000/33/32/31 with "
+         "messages held) and runs random send/recv/resize histories. fan mode enumerates (kind x depth x ring offset x fill "
+         "incl. one beyond the depth x new depth x option-before/after-first-pipe) for pub.sendbuf and bus.sendbuf with two "
+         "stalled pipes, sub-ctx.recvbuf with two contexts, and pair0/pair1/push/raw req SENDBUF behind a stalled pipe, each "
+         "pipe/context followed by its own model, then random send/pull/resize histories. lmq/msgq modes add depths "
+         "31,32,33,64,1000,8192 (offset at the end of the ring) and, in random msgq runs, cancellation of blocked puts/gets. A class is (implementation or socket kind, depth "
          "-> new depth, fill class, ring wrapped or not, dropped or kept) that was executed to the end without a violation; for id "
          "maps (range class, random start, key stride, wrapped, filled, iterated with removal); for storms the protocol / object kind.",
     assumptions=["ASan/UBSan see only red-zone overflows",
@@ -46,29 +61,37 @@ SPEC = dict(
                  "reached the queue under test",
                  "aios without a callback complete synchronously (nni_task_dispatch executes inline), so nni_aio_busy() right after an "
                  "nni_msgq call tells whether it blocked"],
-    quick=dict(runs=[R("c18_queue", "asan", 8, 20000, "lmq", 600),
-                     R("c18_queue", "asan", 8, 20000, "msgq", 600),
-                     R("c18_queue", "asan", 8, 500, "api", 900),
-                     R("c18_ids", "asan", 8, 8000, "map", 600),
-                     R("c18_ids", "asan", 4, 300, "storm", 900)],
+    quick=dict(runs=[R("c18_queue", "asan", 8, 10000, "lmq", 600),
+                     R("c18_queue", "asan", 8, 10000, "msgq", 600),
+                     R("c18_queue", "asan", 8, 400, "api", 900),
+                     R("c18_queue", "asan", 8, 250, "fan", 900),
+                     R("c18_ids", "asan", 8, 6000, "map", 600),
+                     R("c18_ids", "asan", 4, 240, "storm", 900)],
                floor={"cases": 600000, "lmq_cases": 258000, "msgq_cases": 296000, "lossy_resizes": 500000,
                       "msgq_blocked_puts": 200000, "msgq_handoffs": 1500000,
                       "api_resize_cases": 11000, "api_capacity_points": 88, "api_refills": 4000,
-                      "api_inflight_slot_used": 700, "api_random_cases": 3500,
+                      "api_inflight_slot_used": 700, "api_random_cases": 2800, "api_range_cases": 18,
+                      "fan_resize_cases": 4500, "fan_two_pipe_cases": 1100, "fan_ctx_cases": 280,
+                      "fan_sendbuf_behind_pipe_cases": 3100, "fan_random_cases": 1800, "fan_pulls": 60000,
+                      "big_depth_cases": 1900, "msgq_cancels": 120000, "ids_concurrent": 50000,
                       "idmap_steps": 40000000, "idmap_wraps": 1500000, "idmap_visits": 800000,
                       "ids_sockets": 12000, "ids_pipes": 1000, "ids_requests": 4000, "ids_surveys": 4000,
-                      "@classes": 3300},
+                      "@classes": 5500},
                exhaustive_note="lmq and msgq modes enumerate their (depth, offset, fill, resize, gets, puts, resize) space completely; "
                                "api enumerates its smaller space completely; random histories, id maps and storms are sampled"),
     thorough=dict(runs=[R("c18_queue", "asan", 16, 100000, "lmq", 3000),
                         R("c18_queue", "asan", 16, 100000, "msgq", 3000),
                         R("c18_queue", "asan", 16, 2500, "api", 3000),
+                        R("c18_queue", "asan", 16, 2500, "fan", 3000),
                         R("c18_ids", "asan", 16, 100000, "map", 3000),
                         R("c18_ids", "asan", 8, 1500, "storm", 3000)],
                   floor={"cases": 3000000, "lmq_cases": 258000, "msgq_cases": 296000, "lossy_resizes": 3000000,
-                         "api_resize_cases": 33000, "api_capacity_points": 88, "api_random_cases": 35000,
+                         "api_resize_cases": 33000, "api_capacity_points": 88, "api_random_cases": 35000, "api_range_cases": 18,
+                         "fan_resize_cases": 18000, "fan_two_pipe_cases": 4900, "fan_ctx_cases": 1200,
+                         "fan_sendbuf_behind_pipe_cases": 11500, "fan_random_cases": 35000, "fan_pulls": 600000,
+                         "big_depth_cases": 1900, "msgq_cancels": 2000000, "ids_concurrent": 500000,
                          "idmap_steps": 1000000000, "idmap_wraps": 40000000,
                          "ids_sockets": 120000, "ids_pipes": 12000, "ids_requests": 40000, "ids_surveys": 40000,
-                         "@classes": 4500},
+                         "@classes": 9000},
                   exhaustive_note="as quick, with api depths up to 8 and 20x the random histories"),
 )
